@@ -1,7 +1,7 @@
 #!/bin/sh
-# usage: verify_seed.sh <worktree> <seed dir> <pkg dir> [ldflags]
+# usage: verify_seed.sh <worktree> <seed dir> <pkg dir> [ldflags] [extra flags for the demo runs, e.g. -race]
 # Confirms: patch applies; package builds; existing tests pass with the patch; demo fails with the patch and passes without.
-WT=$1; D=$2; PKG=$3; LDF=$4
+WT=$1; D=$2; PKG=$3; LDF=$4; DF=$5
 export GOFLAGS=-mod=mod GOPROXY=off GOSUMDB=off GOTOOLCHAIN=local
 mkdir -p /tmp/seedmod; cp $WT/go.mod /tmp/seedmod/repo.go.mod; cp $WT/go.sum /tmp/seedmod/repo.go.sum
 GT="go test -modfile=/tmp/seedmod/repo.go.mod -vet=off -count=1 $LDF"
@@ -9,9 +9,9 @@ cd $WT && git checkout -q -- . && git clean -fdq
 git apply $D/patch.diff || { echo "RESULT apply-failed"; exit 1; }
 $GT ./$PKG/ > /tmp/seed_existing.log 2>&1; e1=$?
 cp $D/demo_test.go $WT/$PKG/zz_demo_test.go
-$GT -run 'Demo' ./$PKG/ > /tmp/seed_demo_with.log 2>&1; e2=$?
+$GT $DF -run 'Demo' ./$PKG/ > /tmp/seed_demo_with.log 2>&1; e2=$?
 git checkout -q -- .
-$GT -run 'Demo' ./$PKG/ > /tmp/seed_demo_without.log 2>&1; e3=$?
+$GT $DF -run 'Demo' ./$PKG/ > /tmp/seed_demo_without.log 2>&1; e3=$?
 rm -f $WT/$PKG/zz_demo_test.go; git checkout -q -- . ; git clean -fdq
 echo "RESULT existing_tests_with_patch=$e1 demo_with_patch=$e2 demo_without_patch=$e3"
 [ $e1 = 0 ] && [ $e2 != 0 ] && [ $e3 = 0 ] && echo "CONFIRMED" || { echo "NOT CONFIRMED"; tail -5 /tmp/seed_existing.log /tmp/seed_demo_with.log /tmp/seed_demo_without.log; }
